@@ -256,8 +256,10 @@ func sweepInChildren(seed int64, samples int) ([]SweepResult, map[string]int) {
 	var all []SweepResult
 	stats := map[string]int{}
 	skip := []string{}
+	deaths := map[string]int{}
 	self, _ := os.Executable()
 	for round := 0; round < 25; round++ {
+		kept := len(all)
 		cmd := exec.Command(self, "sweepchild", fmt.Sprint(seed), fmt.Sprint(samples), strings.Join(skip, ","))
 		out, err := cmd.CombinedOutput()
 		last := ""
@@ -288,7 +290,14 @@ func sweepInChildren(seed int64, samples int) ([]SweepResult, map[string]int) {
 			all = append(all, SweepResult{Target: "sweep", Kind: "panic", Msg: "sweep child failed to start: " + fmt.Sprint(err)})
 			break
 		}
-		// the child died while calling `last`
+		// the child died while calling `last`: a death that leaves no panic behind (a kill from
+		// outside, a loaded machine) is judged only when it happens again on a second try - results
+		// of the first try are dropped, the child starts over
+		if !strings.Contains(string(out), "panic:") && !strings.Contains(string(out), "fatal error:") && deaths[last] == 0 {
+			deaths[last]++
+			all = all[:kept]
+			continue
+		}
 		msg := string(out)
 		if i := strings.Index(msg, "panic:"); i >= 0 {
 			msg = msg[i:]
@@ -296,7 +305,7 @@ func sweepInChildren(seed int64, samples int) ([]SweepResult, map[string]int) {
 		if len(msg) > 300 {
 			msg = msg[:300]
 		}
-		all = append(all, SweepResult{Target: last, Phase: "?", Kind: "crash", Msg: "the process was killed: " + strings.ReplaceAll(msg, "\n", " | ")})
+		all = append(all, SweepResult{Target: last, Phase: "?", Kind: "crash", Msg: "the process was killed (" + fmt.Sprint(err) + "): " + strings.ReplaceAll(msg, "\n", " | ")})
 		stats["crash"]++
 		skip = append(skip, last)
 	}
